@@ -642,6 +642,8 @@ GOOD = [
     "{% ifchanged %}{{ chg.d }}{% endifchanged %}{% doc %} {{ nope }} {% enddoc %}{{ last.one }}",
     "{% liquid assign a = b\n echo a %}{% liquid\n%}{% liquid echo c.d | f1 | f2: e\n %}",
     "{% render 'part' for many.items as pv %}{% include 'part' for others %}{{ tname.v }}",
+    "{% assign key = kk %}{{ item[key] }} {{ prices[idx] | plus: row[col] }}\n{% for r in rows %}{{ r[col] }}{% endfor %}{% liquid echo item[key]\n echo row[col][key] %}",
+    "{% doc -%}\n usage: {% if product %}{% form 'p' %}{% else %}\n{% enddoc %}{{ after.doc }}{%- doc %}{{ inner }}{% enddoc -%}\n{% assign dz = tail.v %}{{ dz }}",
     "x {{ 'str' | append: v1 | replace: 'a', v2.w }} y {{ 1 | plus: n1.n | minus: 2.5 }} z {{ true }}{{ nil }}{{ (1..3) | join }}",
 ]
 NGOOD = len(GOOD)
@@ -721,7 +723,7 @@ def analyze_ok(k, partials, use_async):
 
 def c20_spans_analyze(k: int, partials: bool) -> bool:
     """
-    pre: 0 <= k < 28
+    pre: 0 <= k < 30
     post: _
     """
     if excluded("c20_spans_analyze", locals()):
@@ -731,7 +733,7 @@ def c20_spans_analyze(k: int, partials: bool) -> bool:
 
 def c20_spans_analyze_async(k: int, partials: bool) -> bool:
     """
-    pre: 0 <= k < 28
+    pre: 0 <= k < 30
     post: _
     """
     if excluded("c20_spans_analyze_async", locals()):
@@ -781,7 +783,7 @@ def tags_problems(k):
 
 def c20_spans_tag_analysis(k: int) -> bool:
     """
-    pre: 0 <= k < 40
+    pre: 0 <= k < 42
     post: _
     """
     if excluded("c20_spans_tag_analysis", locals()):
@@ -1099,7 +1101,7 @@ def selftest():
     for i, t in enumerate(TEMPLATES):
         if t is None:
             fails.append("GOOD[%d] does not parse: %r" % (i, GOOD[i]))
-    if (len(EXPRS), len(BAD_EXPRS), len(LIQS), len(BAD_LIQS), len(GOOD), len(TAG_SRCS), len(EOF_FAMILY), len(PARTIALS)) != (24, 8, 13, 3, 28, 40, 11, 4):
+    if (len(EXPRS), len(BAD_EXPRS), len(LIQS), len(BAD_LIQS), len(GOOD), len(TAG_SRCS), len(EOF_FAMILY), len(PARTIALS)) != (24, 8, 13, 3, 30, 42, 11, 4):
         fails.append("pool sizes drifted from the preconditions: %r" % ((len(EXPRS), len(BAD_EXPRS), len(LIQS), len(BAD_LIQS), len(GOOD), len(TAG_SRCS), len(EOF_FAMILY), len(PARTIALS)),))
     if max(len(v) for v in MALFORMED.values()) > 64:
         fails.append("malformed category larger than 64")
